@@ -17,6 +17,7 @@ import (
 
 	"github.com/nsqio/nsq/internal/verif/vos"
 	"github.com/nsqio/nsq/internal/verif/vrt"
+	"github.com/nsqio/nsq/internal/verif/vsync"
 	"github.com/nsqio/nsq/internal/verif/vx"
 )
 
@@ -31,6 +32,11 @@ type metaEvent struct {
 	Eff   vos.Effect
 	Snaps []string // live states at this moment (with and without objects that are exiting)
 	Step  int
+	// Ack: this event marks the HTTP 200 of a pause/unpause ("a" or "a/x" -> paused?), or of
+	// a step that removes / re-creates an object (value nil: forget what was acknowledged)
+	AckObj string
+	AckVal *bool
+	AckOK  bool // Kind snap: the request was answered 200
 }
 
 type MetaTrace struct {
@@ -107,30 +113,67 @@ func RunMetaScript(spec MetaSpec) vx.Out {
 	idle()
 	vrt.Window(true)
 	defer vrt.Window(false)
-	for _, st := range spec.Steps {
+	doStep := func(st string) {
 		p := strings.Split(st, ":")
 		url := ""
+		ackObj := ""
+		var ackVal *bool
+		yes, no := true, false
 		switch p[0] {
 		case "mk":
 			url = "/topic/create?topic=" + p[1]
 		case "rm":
 			url = "/topic/delete?topic=" + p[1]
+			ackObj = p[1] + "*"
 		case "mkch":
 			url = "/channel/create?topic=" + p[1] + "&channel=" + p[2]
 		case "rmch":
 			url = "/channel/delete?topic=" + p[1] + "&channel=" + p[2]
+			ackObj = p[1] + "/" + p[2]
 		case "pause", "unpause":
 			url = "/topic/" + p[0] + "?topic=" + p[1]
+			ackObj, ackVal = p[1], &no
+			if p[0] == "pause" {
+				ackVal = &yes
+			}
 		case "pausech", "unpausech":
 			url = "/channel/" + strings.TrimSuffix(p[0], "ch") + "?topic=" + p[1] + "&channel=" + p[2]
+			ackObj, ackVal = p[1]+"/"+p[2], &no
+			if p[0] == "pausech" {
+				ackVal = &yes
+			}
 		default:
 			panic("unknown meta step " + st)
+		}
+		if ackObj != "" && !strings.Contains(st, "#ephemeral") {
+			tr.Events = append(tr.Events, metaEvent{Kind: "start", Step: len(tr.Codes), AckObj: ackObj, AckVal: ackVal})
 		}
 		// the live state may change at any point of the step: sample it at every decision
 		// the step makes that touches the metadata file; the final state is sampled at idle
 		code, _ := w.Do("POST", strings.ReplaceAll(url, "#", "%23"), nil)
 		tr.Codes = append(tr.Codes, code)
-		tr.Events = append(tr.Events, metaEvent{Kind: "snap", Snaps: liveStates(w.N), Step: len(tr.Codes)})
+		ev := metaEvent{Kind: "snap", Snaps: liveStates(w.N), Step: len(tr.Codes)}
+		if ackObj != "" && !strings.Contains(st, "#ephemeral") {
+			ev.AckObj, ev.AckVal, ev.AckOK = ackObj, ackVal, code == 200
+		}
+		tr.Events = append(tr.Events, ev)
+	}
+	for _, st := range spec.Steps {
+		if par := strings.Split(st, "||"); len(par) > 1 {
+			// two requests in flight at once (two operators, or a client retrying)
+			var wg vsync.WaitGroup
+			wg.Add(len(par))
+			for _, one := range par {
+				one := one
+				vrt.GoNamed("req-"+one, func() {
+					doStep(one)
+					wg.Done()
+				})
+			}
+			wg.Wait()
+		} else {
+			doStep(st)
+		}
 		idle()
 	}
 	return vx.Out{Obs: fmt.Sprint(tr.Codes)}
@@ -265,6 +308,77 @@ func JudgeMeta(tr *MetaTrace) MetaJudgement {
 				}
 			}
 		}
+		// clause (4): pause/unpause acknowledged (HTTP 200) before this crash point
+		// Clause (4), as a linearizability condition on the paused flag of each object: the
+		// value on disk must be that of a request that can be LAST in some linearization of
+		// the pause/unpause requests issued so far - a request still in flight (it may or may
+		// not have taken effect), or a completed (200) one that no other completed request
+		// started after.
+		type preq struct {
+			start, ack int // event indices; ack < 0: not answered before the crash
+			val, ok    bool
+		}
+		reqs := map[string][]*preq{}
+		forget := func(obj string) {
+			if strings.HasSuffix(obj, "*") {
+				t := strings.TrimSuffix(obj, "*")
+				for o := range reqs {
+					if o == t || strings.HasPrefix(o, t+"/") {
+						delete(reqs, o)
+					}
+				}
+			} else {
+				delete(reqs, obj)
+			}
+		}
+		for i := 0; i < k && i < len(tr.Events); i++ {
+			ev := tr.Events[i]
+			if ev.AckObj == "" {
+				continue
+			}
+			switch {
+			case ev.AckVal == nil:
+				// a deletion (started or answered): forget what was acknowledged for the object
+				forget(ev.AckObj)
+			case ev.Kind == "start":
+				reqs[ev.AckObj] = append(reqs[ev.AckObj], &preq{start: i, ack: -1, val: *ev.AckVal})
+			default:
+				for _, r := range reqs[ev.AckObj] {
+					if r.ack < 0 && r.val == *ev.AckVal {
+						r.ack, r.ok = i, ev.AckOK
+						break
+					}
+				}
+			}
+		}
+		// object -> set of allowed values (absent: nothing to assert)
+		ackAllowed := map[string]map[bool]bool{}
+		for obj, rs := range reqs {
+			al := map[bool]bool{}
+			completed := false
+			for _, x := range rs {
+				if x.ack < 0 {
+					al[x.val] = true
+					continue
+				}
+				if !x.ok {
+					continue
+				}
+				completed = true
+				last := true
+				for _, y := range rs {
+					if y != x && y.ack >= 0 && y.ok && y.start > x.ack {
+						last = false
+					}
+				}
+				if last {
+					al[x.val] = true
+				}
+			}
+			if completed {
+				ackAllowed[obj] = al
+			}
+		}
 		f := files["nsqd.dat"]
 		type variant struct {
 			content []byte
@@ -296,6 +410,11 @@ func JudgeMeta(tr *MetaTrace) MetaJudgement {
 			}
 			if strings.Contains(string(v.content), "#ephemeral") {
 				bad("C06 C08 ephemeral object in the persisted metadata", "kill %s: nsqd.dat=%q", at, v.content)
+			}
+			for obj, al := range ackAllowed {
+				if got, exists := pausedIn(st, obj); exists && !al[got] {
+					bad("C06 acknowledged pause/unpause not reflected after a kill", "kill %s (%s): every pause/unpause request for %s that can be the last one so far asked for paused=%v (and was answered 200 unless still in flight), restart loads {%s} (steps %v answered %v)", at, v.what, obj, !got, st, tr.Spec.Steps, tr.Codes)
+				}
 			}
 			if !allowed[st] {
 				var al []string
@@ -361,6 +480,37 @@ func JudgeMeta(tr *MetaTrace) MetaJudgement {
 		}
 	}
 	return j
+}
+
+// pausedIn reads the paused flag of a topic ("a") or channel ("a/x") out of a rendered
+// state ("a[p]:x[p],y;b:").
+func pausedIn(state, obj string) (paused, exists bool) {
+	tn, cn := obj, ""
+	if i := strings.Index(obj, "/"); i >= 0 {
+		tn, cn = obj[:i], obj[i+1:]
+	}
+	for _, t := range strings.Split(state, ";") {
+		i := strings.Index(t, ":")
+		if i < 0 {
+			continue
+		}
+		name, chans := t[:i], t[i+1:]
+		tp := strings.HasSuffix(name, "[p]")
+		name = strings.TrimSuffix(name, "[p]")
+		if name != tn {
+			continue
+		}
+		if cn == "" {
+			return tp, true
+		}
+		for _, c := range strings.Split(chans, ",") {
+			cp := strings.HasSuffix(c, "[p]")
+			if strings.TrimSuffix(c, "[p]") == cn {
+				return cp, true
+			}
+		}
+	}
+	return false, false
 }
 
 // CheckDirLock: a second nsqd on a data path in use refuses to start; it starts once the
